@@ -26,11 +26,21 @@ type MapEnt struct {
 //	ttwin  TrueType with /Encoding /WinAnsiEncoding    ttmac  … /MacRomanEncoding
 //	tu1    simple font (1-byte codes) with /ToUnicode (§9.10.3) and a deliberately different /Encoding
 //	type0  Type0 /Identity-H with CIDFontType2 descendant and 2-byte /ToUnicode (§9.7)
+//	t1dstd Type1, standard-14 BaseFont, /Encoding dictionary with /Differences only => StandardEncoding is the base (Table 114)
+//	t1dwin … /Encoding << /BaseEncoding /WinAnsiEncoding /Differences […] >>   t1dmac … /MacRomanEncoding
 type FontSpec struct {
-	Res  string   `json:"res"`  // resource name without slash, e.g. F1
-	Kind string   `json:"kind"` // see above
-	Base string   `json:"base"` // BaseFont
-	Map  []MapEnt `json:"map,omitempty"`
+	Res  string    `json:"res"`  // resource name without slash, e.g. F1
+	Kind string    `json:"kind"` // see above
+	Base string    `json:"base"` // BaseFont
+	Map  []MapEnt  `json:"map,omitempty"`
+	Diff []DiffEnt `json:"diff,omitempty"` // /Differences of the t1d* kinds
+}
+
+// DiffEnt is one entry of a /Differences array: the code now selects the named glyph (§9.6.6.1).
+type DiffEnt struct {
+	Code  int    `json:"code"`
+	Glyph string `json:"glyph"` // Adobe Glyph List name
+	Text  string `json:"text"`
 }
 
 // Line is one self-contained text object: BT /Res Size Tf X Y Td <string> Tj ET.
@@ -114,6 +124,7 @@ type Layout struct {
 	FilterArray1 bool  `json:"filter_array1,omitempty"`
 	ResIndirect  bool  `json:"res_indirect,omitempty"` // /Resources is a reference
 	FontDictInd  bool  `json:"fontdict_ind,omitempty"` // /Font sub-dictionary is a reference
+	CIDInfoInd   bool  `json:"cidinfo_ind,omitempty"`  // /CIDSystemInfo and /Encoding dictionaries of fonts are references
 	ToUniFlate   bool  `json:"touni_flate,omitempty"`  // ToUnicode streams are Flate-compressed
 	ReuseFreed   bool  `json:"reuse_freed,omitempty"`  // new objects take freed numbers with generation+1 (§7.5.4)
 	FreeDeleted  bool  `json:"free_deleted,omitempty"` // objects that disappear are marked free (otherwise just left unreferenced)
